@@ -29,16 +29,24 @@ type produced struct {
 }
 
 type session struct {
-	streamID uint64
-	iPub     [32]byte
-	rPub     [32]byte
-	shared   [32]byte
-	keys     [2]*crypto.SessionKey
-	prod     [2][]*produced // genuine ciphertexts by producing end
-	accepted [2][][]byte    // inputs accepted by each end, in order (for shadow replay)
-	lastCtr  [2]int64       // highest embedded counter accepted by each end (-1 none)
-	accSet   [2]map[string]bool
-	nSenders int
+	streamID   uint64
+	iPub       [32]byte
+	rPub       [32]byte
+	shared     [32]byte
+	keys       [2]*crypto.SessionKey
+	prod       [2][]*produced // genuine ciphertexts by producing end
+	accepted   [2][][]byte    // inputs accepted by each end, in order (for shadow replay)
+	lastCtr    [2]int64       // highest embedded counter accepted by each end (-1 none)
+	accSet     [2]map[string]bool
+	nSenders   int
+	nReceivers int
+	accIv      [2][]accInterval // accepted deliveries with invoke/return stamps (concurrent receivers)
+}
+
+type accInterval struct {
+	inv, ret uint64
+	ctr      uint64
+	seq      int
 }
 
 func newSession(streamID uint64) *session {
@@ -91,7 +99,10 @@ func runC01() {
 	s.nSenders = nSenders
 	perSender := 2 + simrt.Choose(12, "msgs")
 	deliveries := 10 + simrt.Choose(60, "deliveries")
-	simrt.Eventf("C01 senders=%d per=%d deliveries=%d", nSenders, perSender, deliveries)
+	// frames of one tunnel are normally handled by one loop, but datagram
+	// tunnels are dispatched by parallel workers: 1-3 concurrent deliverers per end
+	s.nReceivers = 1 + simrt.Choose(3, "receivers")
+	simrt.Eventf("C01 senders=%d per=%d deliveries=%d receivers=%d", nSenders, perSender, deliveries, s.nReceivers)
 
 	done := 0
 	total := 2 * nSenders
@@ -126,76 +137,83 @@ func runC01() {
 	}
 	// adversarial network: one delivery loop per receiving end
 	advDone := 0
+	nextShared := [2]int{}
 	for end := 0; end < 2; end++ {
-		end := end
-		simrt.Go(fmt.Sprintf("adversary%d", end), func() {
-			next := 0 // next in-order genuine frame of the other end not yet offered
-			for d := 0; d < deliveries; d++ {
-				simrt.Yield()
-				src := s.prod[1-end]
-				own := s.prod[end]
-				kind := simrt.Choose(12, "adv")
-				var ct []byte
-				var genuine *produced
-				label := ""
-				switch {
-				case kind <= 3 && next < len(src): // in-order delivery (most common)
-					genuine = src[next]
-					next++
-					label = "inorder"
-				case kind == 4 && len(src) > 0: // replay / duplicate / reorder: any frame
-					genuine = src[simrt.Choose(len(src), "pick")]
-					if genuine.seq >= next {
-						next = genuine.seq + 1 // skipped ahead: earlier ones become late
-					}
-					label = "any"
-				case kind == 5 && len(own) > 0: // reflect to sender
-					p := own[simrt.Choose(len(own), "pick")]
-					ct = p.ct
-					label = "reflect"
-					simrt.Probe("reflect_delivered")
-				case kind == 6 && len(src) > 0: // bit flip
-					p := src[simrt.Choose(len(src), "pick")]
-					ct = append([]byte(nil), p.ct...)
-					bit := simrt.Choose(len(ct)*8, "bit")
-					ct[bit/8] ^= 1 << (bit % 8)
-					label = "bitflip"
-					simrt.Probe("bitflip_delivered")
-				case kind == 7 && len(src) > 0: // truncation
-					p := src[simrt.Choose(len(src), "pick")]
-					ct = append([]byte(nil), p.ct[:simrt.Choose(len(p.ct), "cut")]...)
-					label = "truncate"
-				case kind == 8: // forged frame with chosen counter and random body
-					ct = forge(end, nil)
-					label = "forge"
-					simrt.Probe("forged_delivered")
-				case kind == 9 && len(src) > 0: // genuine body under an altered counter
-					p := src[simrt.Choose(len(src), "pick")]
-					ct = forge(end, p.ct)
-					label = "renumber"
-					simrt.Probe("forged_delivered")
-				case kind == 10: // frame of another session with the same stream id
-					p := other.prod[simrt.Choose(2, "oend")][simrt.Choose(3, "pick")]
-					ct = p.ct
-					label = "cross-session"
-				default:
+		for rcv := 0; rcv < s.nReceivers; rcv++ {
+			end, rcv := end, rcv
+			simrt.Go(fmt.Sprintf("adversary%d.%d", end, rcv), func() {
+				next := 0 // next in-order genuine frame of the other end not yet offered
+				_ = rcv
+				for d := 0; d < deliveries; d++ {
 					simrt.Yield()
-					continue
+					src := s.prod[1-end]
+					own := s.prod[end]
+					kind := simrt.Choose(12, "adv")
+					var ct []byte
+					var genuine *produced
+					label := ""
+					switch {
+					case kind <= 3 && nextShared[end] < len(src): // in-order delivery (most common)
+						next = nextShared[end]
+						genuine = src[next]
+						nextShared[end] = next + 1
+						label = "inorder"
+					case kind == 4 && len(src) > 0: // replay / duplicate / reorder: any frame
+						genuine = src[simrt.Choose(len(src), "pick")]
+						if genuine.seq >= nextShared[end] {
+							nextShared[end] = genuine.seq + 1 // skipped ahead: earlier ones become late
+						}
+						label = "any"
+					case kind == 5 && len(own) > 0: // reflect to sender
+						p := own[simrt.Choose(len(own), "pick")]
+						ct = p.ct
+						label = "reflect"
+						simrt.Probe("reflect_delivered")
+					case kind == 6 && len(src) > 0: // bit flip
+						p := src[simrt.Choose(len(src), "pick")]
+						ct = append([]byte(nil), p.ct...)
+						bit := simrt.Choose(len(ct)*8, "bit")
+						ct[bit/8] ^= 1 << (bit % 8)
+						label = "bitflip"
+						simrt.Probe("bitflip_delivered")
+					case kind == 7 && len(src) > 0: // truncation
+						p := src[simrt.Choose(len(src), "pick")]
+						ct = append([]byte(nil), p.ct[:simrt.Choose(len(p.ct), "cut")]...)
+						label = "truncate"
+					case kind == 8: // forged frame with chosen counter and random body
+						ct = forge(end, nil)
+						label = "forge"
+						simrt.Probe("forged_delivered")
+					case kind == 9 && len(src) > 0: // genuine body under an altered counter
+						p := src[simrt.Choose(len(src), "pick")]
+						ct = forge(end, p.ct)
+						label = "renumber"
+						simrt.Probe("forged_delivered")
+					case kind == 10: // frame of another session with the same stream id
+						p := other.prod[simrt.Choose(2, "oend")][simrt.Choose(3, "pick")]
+						ct = p.ct
+						label = "cross-session"
+					default:
+						simrt.Yield()
+						continue
+					}
+					if genuine != nil {
+						ct = genuine.ct
+					}
+					in := append([]byte(nil), ct...)
+					inv := simrt.Seq()
+					plain, err := s.keys[end].Decrypt(in)
+					ret := simrt.Seq()
+					acc := err == nil
+					simrt.Eventf("dec end=%d kind=%s acc=%v h=%x", end, label, acc, simrt.FNV(ct))
+					s.check(end, ct, genuine, label, plain, acc, inv, ret)
 				}
-				if genuine != nil {
-					ct = genuine.ct
-				}
-				in := append([]byte(nil), ct...)
-				plain, err := s.keys[end].Decrypt(in)
-				acc := err == nil
-				simrt.Eventf("dec end=%d kind=%s acc=%v h=%x", end, label, acc, simrt.FNV(ct))
-				s.check(end, ct, genuine, label, plain, acc)
-			}
-			advDone++
-			doneQ.WakeAll()
-		})
+				advDone++
+				doneQ.WakeAll()
+			})
+		}
 	}
-	for done < total || advDone < 2 {
+	for done < total || advDone < 2*s.nReceivers {
 		doneQ.Park()
 	}
 }
@@ -241,7 +259,7 @@ func forge(end int, body []byte) []byte {
 }
 
 // check is the C01 oracle for one delivery to `end`.
-func (s *session) check(end int, ct []byte, genuine *produced, label string, plain []byte, acc bool) {
+func (s *session) check(end int, ct []byte, genuine *produced, label string, plain []byte, acc bool, inv, ret uint64) {
 	// identify the input against everything the other end ever produced
 	var match *produced
 	for _, p := range s.prod[1-end] {
@@ -262,6 +280,24 @@ func (s *session) check(end int, ct []byte, genuine *produced, label string, pla
 			simrt.Failf("accepted-twice", "duplicate accepted", "end %d accepted the same payload twice (seq %d)", end, match.seq)
 		}
 		ctr := int64(binary.BigEndian.Uint64(ct[4:12]))
+		if s.nReceivers > 1 {
+			// concurrent deliverers: "increasing send order" is demanded of
+			// deliveries that did not overlap (a returned before b was invoked)
+			simrt.Probe("accepted_with_concurrent_receivers")
+			for _, a := range s.accIv[end] {
+				if a.ret < inv && a.ctr >= uint64(ctr) {
+					simrt.Failf("accepted-out-of-order", "order", "end %d accepted counter %d in a delivery that began after the delivery of counter %d had returned", end, ctr, a.ctr)
+				}
+				if ret < a.inv && uint64(ctr) >= a.ctr {
+					simrt.Failf("accepted-out-of-order", "order", "end %d accepted counter %d in a delivery that returned before the delivery of counter %d began", end, ctr, a.ctr)
+				}
+			}
+			s.accIv[end] = append(s.accIv[end], accInterval{inv: inv, ret: ret, ctr: uint64(ctr), seq: match.seq})
+			s.accSet[end][key] = true
+			s.accepted[end] = append(s.accepted[end], append([]byte(nil), ct...))
+			simrt.Probe("accepted")
+			return
+		}
 		if s.nSenders == 1 {
 			// single sender: send order is the call order
 			if int64(match.seq) <= s.lastCtr[end] {
@@ -280,7 +316,10 @@ func (s *session) check(end int, ct []byte, genuine *produced, label string, pla
 		return
 	}
 	simrt.Probe("rejected")
-	if match == nil {
+	if match == nil || s.nReceivers > 1 {
+		// with concurrent deliverers the accepted history has no single order to
+		// replay into a shadow endpoint; the shadow check runs in the
+		// single-receiver runs
 		return
 	}
 	// A genuine payload of the opposite end was rejected. That is fine if it is
